@@ -11,7 +11,7 @@ S = {
  "C04-A": ("emit_end fast path accepts an end tag that starts with the expected name followed by whitespace", "default config and `</a b>` or `</tag attr=\">\">` closing `<a>`/`<tag>`"),
  "C04-B": ("mismatched end tag no longer pops the element it was compared against", "two open elements of different names, a mismatched end, caller continues, another end tag"),
  "C05-A": ("NamespaceResolver::pop truncates by buffer offset and drops a still-open zero-length `xmlns=\"\"` entry", "element whose last declaration is xmlns=\"\" under a default namespace, a descendant with own declaration ends, then an unprefixed name is resolved"),
- "C05-B": ("skip helpers set pending_pop=true then pop(): an already owed pop swallows the skipped element's scope (ported to the amended F1 fix)", "history: Start(X), read a child so the last event is Empty/End, then read_to_end(X), then resolve outside X"),
+ "C05-B": ("skip helpers set pending_pop=true then pop(): an already owed pop swallows the skipped element's scope (ported to the tree after the F9 fix; the original against the F1 fix is patch_against_F1_fix.diff)", "history: Start(X), read a child so the last event is Empty/End, then read_to_end(X), then resolve outside X"),
  "C06-A": ("SimpleSeq constructor always uses the text escaping rule: list items in attributes no longer escape '\"'", "Vec/tuple in an @attribute, an item containing '\"', quote level Partial or Minimal"),
  "C06-B": ("write_wrapped uses the checked into_simple_type_serializer: an element after a text item in a $value list is rejected", "$value sequence where a text item is directly followed by an element with a non-empty primitive payload"),
  "C07-A": ("`continue` after consuming a DOCTYPE during text merging removed", "two DOCTYPEs in a row between two text pieces inside a string field: unreachable!() in read_text"),
@@ -49,22 +49,46 @@ MISSED_FIRST = {"C05-B": "C05 only skipped directly after a Start; histories now
                 "C17-A": "from_str was only checked without a leading U+FEFF; now also with BOM + declaration",
                 "C19-B": "no shape whose $value items write nothing; added MixedOpt / MixedTuple serialize-only shapes to the serde half",
                 "C20-A": "children of nested struct items were kept contiguous; added two-level interleavings and the OvlDeep shape"}
+MISSED_FIRST.update({
+ "C02-C": "Reader::stream() (raw bytes between events) was not exercised; C02/C03 histories now issue raw stream reads (sync and async, partially filled ReadBuf) and compare bytes and positions",
+ "C03-D": "same gap as C02-C: raw stream() reads with a re-polled ReadBuf were not driven; added mode ReaderAsyncStream",
+ "C09-C": "the async element builder on an indenting writer was not driven; C09 now runs sync and async ElementWriter with new_line on indenting writers",
+ "C12-D": "Start events were mapped to model tokens by position and silently skipped on a mismatch (INCONCLUSIVE); they are now mapped by order and a position mismatch is reported",
+ "C13-C": "only to_string was driven; C13 now goes through every serializer entry point (to_writer, to_utf8_io_writer, write_serializable) with sinks that stop accepting data, and requires an error when output was cut",
+ "C13-D": "map keys never differed only in the number of leading '@'; key pool now has \"@a\", \"@@a\" ... and output attribute names must be unique",
+ "C15-C": "unknown blobs never contained a same-named child with attributes; 8 blobs now, incl. same-named nesting with attributes / spacing",
+ "C15-D": "no rewrite changed the spacing inside tags and no target had `$value` next to ordinary fields; added the tag_spacing rewrite and the ValuePlus type",
+ "C20-C": "no shape had an element containing a same-named child that must be skipped twice; added OvlRec",
+})
+# second round: change / needs are taken from the agent's NOTES.md
+def from_notes(d):
+    t = open(d + '/NOTES.md').read()
+    title = t.split('\n', 1)[0].lstrip('# ').strip()
+    title = re.sub(r'^(Seed [AB] \(C\d\d(, [^)]*)?\)|C\d\d */ *seed [AB]|Seed [AB])\s*[-—:]+\s*', '', title)
+    m = re.search(r'## What is needed[^\n]*\n(.*?)(\n## |\Z)', t, re.S)
+    needs = re.sub(r'\s+', ' ', m.group(1)).strip()[:600] if m else ''
+    return title, needs
+for d in sorted(os.listdir('/verif/seeded')):
+    if re.fullmatch(r'C\d\d-[CD]', d):
+        S[d] = from_notes('/verif/seeded/' + d)
 res = {}
 if os.path.exists('/verif/seeded/RESULTS.txt'):
     for l in open('/verif/seeded/RESULTS.txt'):
-        m = re.match(r'(C\d\d-[AB])/patch.diff (C\d\d) exit=(\d+)(.*)', l)
+        m = re.match(r'(C\d\d-[A-D])/patch.diff (C\d\d) exit=(\d+)(.*)', l)
         if m:
             res.setdefault(m.group(1), []).append({"check": m.group(2), "exit": int(m.group(3)), "first_detail": m.group(4).strip()[:240]})
 for k, (change, needs) in S.items():
     d = '/verif/seeded/' + k
     conf = open(d + '/CONFIRM.txt').read().strip().split('\n') if os.path.exists(d + '/CONFIRM.txt') else []
     meta = {
-        "property": k[:3], "variant": k[4:], "written_by": "fresh sub-agent given only the property text and a scratch worktree (nothing from /verif)",
+        "property": k[:3], "variant": k[4:], "round": 2 if k[4:] in "CD" else 1, "written_by": "fresh sub-agent given only the property text and a scratch worktree (nothing from /verif)",
         "change": change, "needs_to_manifest": needs,
         "confirmed_by_me": {"how": "tools/confirm_seed.sh in the scratch worktree: patch applies; default-feature suite passes with it (all-features too where ALLFEAT=1); demo fails with it; demo passes without it", "log": conf},
         "checks_run_against_it": res.get(k, []),
         "detected": any(r["exit"] == 1 for r in res.get(k, [])),
     }
+    if os.path.exists(d + "/patch_against_F1_fix.diff"):
+        meta["ported"] = "patch.diff is the same change ported to the tree after fix 02ce051 (F9) and re-confirmed there; patch_against_F1_fix.diff is the agent's original"
     if k in MISSED_FIRST:
         meta["missed_at_first"] = MISSED_FIRST[k]
     json.dump(meta, open(d + '/meta.json', 'w'), indent=1)
